@@ -66,11 +66,11 @@ impl BinaryOp {
             BinaryOp::Mul => lhs * rhs,
             BinaryOp::Div => match rhs {
                 0 => 0,
-                _ => lhs / rhs,
+                _ => lhs.wrapping_div(rhs),
             },
             BinaryOp::Mod => match rhs {
                 0 => 0,
-                _ => lhs % rhs,
+                _ => lhs.wrapping_rem(rhs),
             },
             BinaryOp::Shl => lhs << rhs,
             BinaryOp::Shr => lhs >> rhs,
